@@ -325,7 +325,10 @@ class StdioClient:
                 except Exception as exc:
                     logger.error("Error serializing message in stdin_writer: %s", exc)
                     logger.debug("Failed message type: %s", type(message))
-                    logger.debug("Failed message: %s", repr(message)[:200])
+                    # Lazily formatted: repr() of the message that just failed to
+                    # serialise may fail the same way (e.g. RecursionError for a very
+                    # deep payload) and must not take the writer task down with it
+                    logger.debug("Failed message: %.200r", message)
                     logger.debug("Traceback:\n%s", traceback.format_exc())
                     continue
 
